@@ -337,6 +337,26 @@ META = {
         ],
         run_cap_s=900, shrink_tests=10, shrink_s=300,
     ),
+    "C06": _m(
+        "S", "exploration", (28, 2000), (900, 3000),
+        "Each run = one Engine run of 128-1024 chains x 10-50 iterations of one kernel (cycling through RWKernel, IWLSKernel with the "
+        "Hessian, IWLSKernel with a user-supplied information matrix, MHKernel with a symmetric / independence / multiplicative proposal and "
+        "its declared correction) in a burn-in or posterior epoch (fixed step size 0.2-1.5) on a Gaussian / logistic / Poisson regression "
+        "with a Normal prior, 1-3 coefficients as one key or split over two keys, as a dict model or a Liesel graph model; every *accepted* "
+        "transition (proposal = state after) is compared with min(1, pi(x')q(x|x') / pi(x)q(x'|x)) from a float64 re-statement of pi and q "
+        "(analytic gradient and negative Hessian); rejected transitions get the range check. Non-trivial = at least one accepted "
+        "transition; distinct = distinct configuration.",
+        "kernel transitions x chains",
+        "distinct (kernel, family, dimension, key split, model kind, step size, tau, sigma, n) tuples",
+        ["liesel.goose.IWLSKernel (forward/backward densities), iwls_utils.solve/mvn_log_prob/mvn_sample, RWKernel, MHKernel, mh_step, DictInterface / LieselInterface, Engine"],
+        ["regression log-densities (float32 jnp for the kernels, float64 numpy reference)", "user proposal functions with declared corrections"],
+        [
+            "no fault dimension: seeded Monte-Carlo simulation of the real kernels, recorded transition histories checked algebraically",
+            "tolerance |log a - log a_ref| <= 5e-3 + 2e-3 |log a_ref| or |a - a_ref| <= 5e-3 (float32 Cholesky / solves / autodiff Hessian)",
+            "only burn-in / posterior epochs (fixed step size) are used",
+        ],
+        run_cap_s=900, shrink_tests=10, shrink_s=300,
+    ),
 }
 
 
@@ -351,6 +371,14 @@ NOT_APPLICABLE["C18"] = (
 )
 
 MANIFEST_TEXT = {
+    "C06": dict(
+        technique="seeded Monte-Carlo simulation of the real kernels through the Engine; per-transition algebraic check of the recorded accept histories against float64 proposal densities (no fault dimension)",
+        design_ref="DESIGN.md section 4 C06, section 3 world S",
+        level_text="Seeded runs over kernels, model families with analytic gradient/Hessian, block shapes, step sizes and starting points; for every "
+        "accepted transition the reported acceptance probability must equal the Metropolis-Hastings ratio with the kernel's actual proposal "
+        "density. Sampling, not a proof.",
+        level_note="Trusted: numpy/scipy float64 linear algebra. Models and user proposals are stubs; kernels, iwls_utils, mh_step, engine are real.",
+    ),
     "C09": dict(
         technique="deterministic simulation: seeded kernel sequences of real kernels with observer probes between them; recorded intermediate states vs closed-form recomputation and hand-over comparison",
         design_ref="DESIGN.md section 4 C09",
